@@ -39,8 +39,11 @@ type SpzFile struct {
 	FB        int      `json:"fb"`
 	Flags     int      `json:"flags"`
 	Container string   `json:"container"` // "stored" (hand-written gzip, stored deflate block) | "deflate" (compress/gzip)
-	Recs      []string `json:"recs"`      // hex of each record
+	Recs      []string `json:"recs,omitempty"` // hex of each record (small scopes)
 	Family    string   `json:"family"`
+	Gen       string   `json:"gen,omitempty"`    // generated records instead of Recs: "ladder" | "half-all"
+	N         int      `json:"n,omitempty"`      // number of generated records
+	Reader    int      `json:"reader,omitempty"` // io.Reader behaviour handed to spz.Read
 }
 
 var shDims = []int{0, 3, 8, 15}
@@ -89,11 +92,24 @@ func refEncodeSpz(f SpzFile, recs [][]byte) []byte {
 	return raw
 }
 
-// gzipStored wraps data in a minimal gzip member whose deflate stream is one stored block (RFC 1952 / 1951).
+// gzipStored wraps data in a minimal gzip member whose deflate stream consists of stored blocks
+// (RFC 1952 / 1951; a stored block holds at most 65535 bytes).
 func gzipStored(data []byte) []byte {
-	out := []byte{0x1f, 0x8b, 8, 0, 0, 0, 0, 0, 0, 0xff}
-	out = append(out, 1, byte(len(data)), byte(len(data)>>8), ^byte(len(data)), ^byte(len(data)>>8))
-	out = append(out, data...)
+	out := make([]byte, 0, len(data)+len(data)/65535*5+32)
+	out = append(out, 0x1f, 0x8b, 8, 0, 0, 0, 0, 0, 0, 0xff)
+	for rest := data; ; {
+		l := len(rest)
+		final := byte(1)
+		if l > 65535 {
+			l, final = 65535, 0
+		}
+		out = append(out, final, byte(l), byte(l>>8), ^byte(l), ^byte(l>>8))
+		out = append(out, rest[:l]...)
+		rest = rest[l:]
+		if final == 1 {
+			break
+		}
+	}
 	var t [8]byte
 	binary.LittleEndian.PutUint32(t[0:], crc32.ChecksumIEEE(data))
 	binary.LittleEndian.PutUint32(t[4:], uint32(len(data)))
@@ -178,14 +194,22 @@ var spzSites = map[string]string{
 func (k *checker) spzCase(f SpzFile, scope string) {
 	c := k.c
 	cs := Case{Kind: "spz", Spz: &f}
-	recs := make([][]byte, len(f.Recs))
-	for i, h := range f.Recs {
-		b, err := hex.DecodeString(h)
-		if err != nil || len(b) != recLen(f.Version, f.Deg) {
-			c.HarnessError("bad spz record in case: %v len=%d", err, len(b))
-			return
+	var recs [][]byte
+	switch f.Gen {
+	case "ladder":
+		recs = ladderRecs(f.Version, f.Deg, f.N)
+	case "half-all":
+		recs = halfAllRecs(f.Deg)
+	default:
+		recs = make([][]byte, len(f.Recs))
+		for i, h := range f.Recs {
+			b, err := hex.DecodeString(h)
+			if err != nil || len(b) != recLen(f.Version, f.Deg) {
+				c.HarnessError("bad spz record in case: %v len=%d", err, len(b))
+				return
+			}
+			recs[i] = b
 		}
-		recs[i] = b
 	}
 	n := len(recs)
 	raw := refEncodeSpz(f, recs)
@@ -197,10 +221,16 @@ func (k *checker) spzCase(f SpzFile, scope string) {
 	}
 	var cloud *spz.Cloud
 	var err error
-	o := core.Guard(func() { cloud, err = spz.Read(bytes.NewReader(data)) })
+	o := core.Guard(func() { cloud, err = spz.Read(shaped(data, f.Reader)) })
 	hclass := fmt.Sprintf("v%d/sh-degree-0", f.Version)
 	if f.Deg > 0 {
 		hclass = fmt.Sprintf("v%d/sh-degree>0", f.Version)
+	}
+	if f.Gen != "" {
+		hclass += "/" + f.Gen
+	}
+	if f.Reader != rdAll {
+		hclass += "/" + modeName(f.Reader)
 	}
 	if o.Panicked || err != nil || cloud == nil {
 		c.Eval(scope, "decode-failed")
@@ -214,7 +244,7 @@ func (k *checker) spzCase(f SpzFile, scope string) {
 	outcome := "ok"
 	defer func() { c.Eval(scope, outcome) }()
 	if n > 0 {
-		c.Nontrivial("spz", raw)
+		c.Nontrivial("spz", raw, f.Container, f.Reader)
 	}
 	c.Sample(scope, map[string]any{"file": f, "gzip_bytes": len(data)})
 	bad := func(field, class, detail string) {
@@ -286,7 +316,13 @@ func (k *checker) spzCase(f SpzFile, scope string) {
 	sc := m.Float3Attribute(modeling.ScaleAttribute)
 	rot := m.Float4Attribute(modeling.RotationAttribute)
 	const rel = 1e-12
+	reported := 0
 	for i, r := range recs {
+		if outcome != "ok" {
+			if reported++; reported > 4 { // a few records per case are enough for the report
+				break
+			}
+		}
 		w := refDequant(f, r)
 		// class: which record (first / later) — offsets into planar arrays only matter from the second on
 		rc := "record0"
@@ -373,9 +409,11 @@ func (k *checker) runSpz() {
 						if k.mine() {
 							for p := 0; p < nBase; p++ {
 								for _, cont := range []string{"stored", "deflate"} {
-									g := f
-									g.Container, g.Family, g.Recs = cont, "fill", hexRecs(baseRecs(p, version, deg, n))
-									k.spzCase(g, scope+"/fill")
+									for mode := range readerModes {
+										g := f
+										g.Container, g.Family, g.Recs, g.Reader = cont, "fill", hexRecs(baseRecs(p, version, deg, n)), mode
+										k.spzCase(g, scope+"/fill")
+									}
 								}
 								if n == 0 {
 									break
@@ -396,7 +434,7 @@ func (k *checker) runSpz() {
 								for v := 0; v < 256; v++ {
 									recs[r][off] = byte(v)
 									g := f
-									g.Container, g.Family, g.Recs = "stored", "sweep", hexRecs(recs)
+									g.Container, g.Family, g.Recs, g.Reader = "stored", "sweep", hexRecs(recs), (v+off)%4
 									k.spzCase(g, scope+"/sweep")
 								}
 								recs[r][off] = keep
@@ -410,7 +448,7 @@ func (k *checker) runSpz() {
 											for _, b2 := range boundary {
 												recs[r][3*axis], recs[r][3*axis+1], recs[r][3*axis+2] = b0, b1, b2
 												g := f
-												g.Container, g.Family, g.Recs = "stored", "coord-boundary", hexRecs(recs)
+												g.Container, g.Family, g.Recs, g.Reader = "stored", "coord-boundary", hexRecs(recs), int(b0>>6+b1>>7+b2&1)%4
 												k.spzCase(g, scope+"/coord-boundary")
 											}
 										}
